@@ -126,7 +126,31 @@ def seed_target_dir(tgt):
     return False
 
 
+BATCH = 24
+
+
 def run_kani(scratch, harnesses, cap_s, mem_gb, jobs, extra_args=(), stubbing=False, logname="kani"):
+    """`cargo kani` over the given harnesses, in batches of BATCH per invocation (the address-space cap also
+    applies to kani-compiler, which aborts when it has to generate code for ~60 harnesses at once)."""
+    results, build_ok, raws, wall, seeded = {}, True, [], 0.0, False
+    for bi in range(0, len(harnesses), BATCH):
+        r, ok, raw, w, sd = _run_kani_batch(scratch, harnesses[bi:bi + BATCH], cap_s, mem_gb, jobs, extra_args, stubbing,
+                                            "%s%d" % (logname, bi // BATCH))
+        results.update(r)
+        raws.append(raw)
+        wall += w
+        seeded = seeded or sd
+        if not ok:
+            build_ok = False
+            break
+    for h in harnesses:
+        results.setdefault(h.full, {"harness": h.full, "status": "missing", "time_s": None, "checks": 0, "failed": 0,
+                                    "covers_sat": 0, "covers_total": 0, "failed_checks": [], "functions": [],
+                                    "peak_rss_mb": 0, "unwind": h.unwind, "undetermined": 0, "solver_s": None})
+    return results, build_ok, "\n".join(raws), wall, seeded
+
+
+def _run_kani_batch(scratch, harnesses, cap_s, mem_gb, jobs, extra_args=(), stubbing=False, logname="kani"):
     """One `cargo kani` invocation over the given harnesses. Returns (results dict, build_ok, raw_log)."""
     tgt = scratch.tgt
     seeded = seed_target_dir(tgt)
@@ -140,7 +164,9 @@ def run_kani(scratch, harnesses, cap_s, mem_gb, jobs, extra_args=(), stubbing=Fa
     cmd += list(extra_args)
     for h in harnesses:
         cmd += ["--harness", h.full]
-    shell = "ulimit -v %d; exec %s" % (int(mem_gb * 1024 * 1024), " ".join("'%s'" % c for c in cmd))
+    # result files of an earlier batch must not be mistaken for this one's
+    shutil.rmtree(os.path.join(tgt, "result_output_dir"), ignore_errors=True)
+    shell = "ulimit -v %d; exec %s" % (int(max(mem_gb, 16) * 1024 * 1024), " ".join("'%s'" % c for c in cmd))
     mon = RssMonitor([h.name for h in harnesses])
     mon.start()
     t0 = time.time()
@@ -190,6 +216,8 @@ def run_kani(scratch, harnesses, cap_s, mem_gb, jobs, extra_args=(), stubbing=Fa
                 r["time_s"] = float(m.group(1))
             if "unwinding failures" in txt:
                 r["unwind_fail"] = True
+            if "encountered no panics, but at least one was expected" in txt:
+                r["no_expected_panic"] = True
             # cover statements: every one must be SATISFIED (UNSATISFIABLE / UNREACHABLE = vacuous harness)
             cov = re.findall(r"\.cover\.\d+\s*\n\s*- Status: (\w+)", txt)
             if cov:
@@ -327,6 +355,8 @@ def classify(h, r, prop=None):
         if r.get("undetermined", 0):
             return "inconclusive", "undetermined checks"
         return "ok", ""
+    if st == "failed" and r.get("no_expected_panic"):
+        return "violation", "the documented panic did not occur (#[kani::should_panic] harness ran to completion)"
     if st == "failed":
         real_all = [c for c in r.get("failed_checks", []) if "unwinding assertion" not in c["description"]]
         real = [c for c in real_all if applies(c["description"], prop)]
@@ -344,8 +374,18 @@ def classify(h, r, prop=None):
     return "inconclusive", st
 
 
-def concrete_playback(scratch, h, cap_s, mem_gb, stubbing=False):
+def should_panic_wrapper(h):
+    """native replay of a `#[kani::should_panic]` harness without symbolic inputs: the test FAILS (= reproduces
+    the violation) iff the harness body runs to completion without panicking"""
+    return ("#[test]\nfn kani_concrete_playback_%s_no_panic() {\n"
+            "    let r = std::panic::catch_unwind(|| %s());\n"
+            "    assert!(r.is_err(), \"expected the documented panic, but the call returned normally\");\n}\n" % (h.name, h.name))
+
+
+def concrete_playback(scratch, h, cap_s, mem_gb, stubbing=False, result=None):
     """Re-run one failing harness with concrete playback and return the generated unit test source."""
+    if result is not None and result.get("no_expected_panic"):
+        return should_panic_wrapper(h), ""
     cmd = ["cargo", "kani", "--target-dir", scratch.tgt, "--output-format", "terse", "-Z", "unstable-options",
            "--harness-timeout", str(int(cap_s)), "-Z", "concrete-playback", "--concrete-playback=print",
            "--exact", "--harness", h.full]
@@ -354,10 +394,25 @@ def concrete_playback(scratch, h, cap_s, mem_gb, stubbing=False):
     shell = "ulimit -v %d; exec %s" % (int(mem_gb * 1024 * 1024), " ".join("'%s'" % c for c in cmd))
     p = subprocess.run(["bash", "-c", shell], cwd=scratch.src, env=offline_env(), capture_output=True, text=True)
     raw = p.stdout
-    m = re.search(r"```\s*\n(.*?)```", raw, re.S)
-    if not m:
+    # Kani prints one unit test per failed check AND per satisfied cover: take the one generated for a failed
+    # assertion (preferably the one named in `want`), not a cover witness
+    blocks = re.findall(r"```\s*\n(.*?)```", raw, re.S)
+    if not blocks:
         return None, raw
-    return m.group(1), raw
+    want = (result or {}).get("failed_checks") or []
+    wanted = [c["description"].strip('"')[:60] for c in want if "unwinding" not in c["description"]]
+    best = None
+    for b in blocks:
+        if "Check for `cover`" in b:
+            continue
+        if best is None:
+            best = b
+        if any(w and w in b for w in wanted):
+            best = b
+            break
+    if best is None:
+        best = blocks[0]
+    return best, raw
 
 
 def native_replay(files, h, test_src, tier):
